@@ -690,6 +690,12 @@ impl StringLiteralToken<&str> {
                     template = false;
                     pos += 2;
                 }
+                '\\' if !template && chars.get(pos + 1) == Some(&'\\') => {
+                    // An escaped backslash is one unit: its second character must not
+                    // start a `\{{` / `\}}` escape.
+                    current.push_str("\\\\");
+                    pos += 2;
+                }
                 '\\' if !template
                     && chars.get(pos + 1) == Some(&'{')
                     && chars.get(pos + 2) == Some(&'{') =>
